@@ -114,6 +114,7 @@ def table_check(reported=None):
 def _table_check():
     bad = []
     seen_struct = {}
+    seen_nf = {}
     for key, u in list(Unit._known.items()):
         # every factor must be a base unit with a nonzero exponent (canonical normal form)
         for f, e in u.factors.items():
@@ -123,6 +124,8 @@ def _table_check():
                 bad.append(("C02", "table:zero-exponent", "%r keeps a zero exponent" % (key_str(u),), u))
             if f is measured.One and len(u.factors) > 1:
                 bad.append(("C02", "table:one-factor", "%r keeps One among other factors" % (key_str(u),), u))
+            if f is measured.One and e != 1:
+                bad.append(("C02", "table:one-exponent", "%r carries One with exponent %d (the placeholder factor is {One: 1})" % (key_str(u), e), u))
         if not is_base(u):
             exp = expected_dim_exponents(u)
             if tuple(u.dimension.exponents) != exp:
@@ -136,6 +139,11 @@ def _table_check():
         if struct in seen_struct and seen_struct[struct] is not u:
             bad.append(("C02", "table:duplicate", "two objects for %s" % key_str(u), u))
         seen_struct[struct] = u
+        # one object per NORMAL FORM: the placeholder One does not distinguish units
+        nform = (id(u.prefix), tuple(sorted((id(f), e) for f, e in u.factors.items() if f is not measured.One)))
+        if nform in seen_nf and seen_nf[nform] is not u:
+            bad.append(("C02", "table:duplicate-normal-form", "two objects denote %s" % key_str(u), u))
+        seen_nf.setdefault(nform, u)
     return bad
 
 
